@@ -512,14 +512,34 @@ class Unit:
             return j
         # containers
         if kind == "macro":
-            exp = expand_macro(src, target)
-            msrc = MacroSource(exp, rel, target, src)
-            items = msrc.items
-            if len(items) != 1 or items[0].kind != "impl":
-                raise LostAnchor(f"macro {target}: expansion is not a single impl")
-            cont = items[0]
-            csrc = msrc
-            self.rewrites.append({"rule": "MACRO", "in": f"{rel}::{target}", "before": target, "after": "textual macro_rules! expansion, sha " + sha(exp)})
+            if "::" in target and "!(" not in target.split("::")[0]:
+                # form: name! :: impl header   -> search all invocations of the macro
+                mname, _, hdr = target.partition("::")
+                mname = mname.strip().rstrip("!").strip()
+                want = norm(hdr.strip())
+                cont = None
+                for it in src.items:
+                    if it.kind == "macro_call" and it.name == mname:
+                        call = src.src[it.start:it.end]
+                        exp = expand_macro(src, call)
+                        msrc = MacroSource(exp, rel, call, src)
+                        for cand in msrc.items:
+                            if cand.kind == "impl" and header_text(cand) == want:
+                                cont = cand
+                                csrc = msrc
+                                chosen = exp
+                if cont is None:
+                    raise LostAnchor(f"{rel}: no invocation of {mname}! expands to `{hdr.strip()}`")
+                self.rewrites.append({"rule": "MACRO", "in": f"{rel}::{target}", "before": target, "after": "textual macro_rules! expansion, sha " + sha(chosen)})
+            else:
+                exp = expand_macro(src, target)
+                msrc = MacroSource(exp, rel, target, src)
+                items = msrc.items
+                if len(items) != 1 or items[0].kind != "impl":
+                    raise LostAnchor(f"macro {target}: expansion is not a single impl")
+                cont = items[0]
+                csrc = msrc
+                self.rewrites.append({"rule": "MACRO", "in": f"{rel}::{target}", "before": target, "after": "textual macro_rules! expansion, sha " + sha(exp)})
         else:
             csrc = src
             cont = None
